@@ -51,6 +51,17 @@ class GtPred2(Predicate):
         return self.left.a > self.right.a
 
 
+@dataclass(eq=False)
+class GtVals(Predicate):
+    """harness predicate over two values (given as two expressions over the same variable): left > right"""
+
+    left: Any
+    right: Any
+
+    def __call__(self):
+        return self.left > self.right
+
+
 @symbolic_function
 def minus_fn(obj):
     """harness symbolic function whose result is a plain value (0 is a value like any other): obj.a - obj.b"""
@@ -81,7 +92,7 @@ def shape_vars(c, bound=()):
                 out.append(c[1])
             if c[2] not in out and c[2] not in bound_stack:
                 out.append(c[2])
-        elif k in ("isa", "pred", "the"):
+        elif k in ("isa", "pred", "the", "predab"):
             if c[1] not in out and c[1] not in bound_stack:
                 out.append(c[1])
         elif k in ("and", "or"):
@@ -115,7 +126,7 @@ def all_vars(c):
                 add(c[1][1])
         elif k in ("has", "pred2"):
             add(c[1]); add(c[2])
-        elif k in ("isa", "pred", "the"):
+        elif k in ("isa", "pred", "the", "predab"):
             add(c[1])
         elif k in ("and", "or"):
             walk(c[1]); walk(c[2])
@@ -152,6 +163,8 @@ def features(c):
             f.add("p2")
         elif k in ("pred", "pred2"):
             f.add("pred")
+        elif k == "predab":
+            f.add("pred"); f.add("b")
         elif k in ("and", "or"):
             walk(c[1]); walk(c[2])
         elif k == "not":
@@ -209,6 +222,8 @@ def show(c):
         return "Gt(%s,k%d)" % (c[1], c[2])
     if k == "pred2":
         return "Gt2(%s,%s)" % (c[1], c[2])
+    if k == "predab":
+        return "GtVals(%s.a,%s.b)" % (c[1], c[1])
     if k == "the":
         return "%s.a==the(z:z.a==k%d).a" % (c[1], c[2])
     if k in ("and", "or"):
@@ -364,6 +379,8 @@ class World:
             return GtPred(self.var(c[1]), self.lits[c[2]])
         if k == "pred2":
             return GtPred2(self.var(c[1]), self.var(c[2]))
+        if k == "predab":
+            return GtVals(self.var(c[1]).a, self.var(c[1]).b)
         if k == "the":
             t = let(type(self.dom["t"][0]) if self.dom["t"] else P, self.dom["t"], name="t")
             return self.var(c[1]).a == the(entity(t, t.a == self.lits[c[2]])).a
@@ -436,6 +453,8 @@ class World:
             return env[c[1]].a > self.lits[c[2]]
         if k == "pred2":
             return env[c[1]].a > env[c[2]].a
+        if k == "predab":
+            return env[c[1]].a > env[c[1]].b
         if k == "the":
             # defined only when exactly one t satisfies t.a == k (otherwise the() raises; see the_defined)
             return OR([AND(EQ(t.a, self.lits[c[2]]), EQ(env[c[1]].a, t.a)) for t in self.dom["t"]])
@@ -481,10 +500,10 @@ def is_elseif_fragment(c):
     k = c[0]
     if "flatv" in features(c):
         return False  # a flattened collection multiplies results per element: judged by C01 (set reading) only
-    if k in ("cmp", "in", "has", "isa", "pred", "pred2"):
+    if k in ("cmp", "in", "has", "isa", "pred", "pred2", "predab"):
         return True
     if k == "not":
-        return c[1][0] in ("cmp", "in", "has", "isa", "pred", "pred2")
+        return c[1][0] in ("cmp", "in", "has", "isa", "pred", "pred2", "predab")
     if k == "and":
         return is_elseif_fragment(c[1]) and is_elseif_fragment(c[2])
     if k == "or":
@@ -501,7 +520,7 @@ def atoms(vars_, level):
     y = vars_[1] if len(vars_) > 1 else None
     out = [("cmp", "==", ("a", x), ("lit", 0)), ("cmp", ">", ("a", x), ("lit", 0))]
     if level >= 1:
-        out += [("cmp", "<=", ("a", x), ("b", x)), ("in", ("a", x), (0, 1)), ("cmp", "!=", ("a", x), ("lit", 0)), ("pred", x, 0)]
+        out += [("cmp", "<=", ("a", x), ("b", x)), ("in", ("a", x), (0, 1)), ("cmp", "!=", ("a", x), ("lit", 0)), ("pred", x, 0), ("predab", x)]
     if level >= 2:
         out += [("cmp", "<", ("kidv", x), ("lit", 0)), ("cmp", ">=", ("val0", x), ("lit", 0)), ("cmp", "==", ("m", x), ("lit", 0)), ("isa", x), ("has", x, "w"), ("cmp", "<", ("lit", 0), ("a", x)), ("cmp", ">", ("flatv", x), ("lit", 0)), ("cmp", "==", ("flatv", x), ("a", x))]
     if level >= 2:
